@@ -7,6 +7,7 @@ import (
 	"strings"
 
 	"github.com/nspcc-dev/neo-go/pkg/core/native/nativenames"
+	"github.com/nspcc-dev/neo-go/pkg/crypto/keys"
 	"github.com/nspcc-dev/neo-go/pkg/neotest"
 	"github.com/nspcc-dev/neo-go/pkg/util"
 	"github.com/nspcc-dev/neo-go/pkg/vm/stackitem"
@@ -41,6 +42,7 @@ type AuthGrid struct {
 	cid, cidPlain       []byte
 	blob, blobNew       []byte
 	blobPlain           []byte
+	audMulti            util.Uint160
 	ownerID             []byte
 	meta                []byte
 	metaSig             []byte
@@ -120,6 +122,11 @@ func (d *AuthGrid) Build() *World {
 	for _, c := range []string{"neofs", "proxy", "alphabet", "processing"} {
 		w.Track(c, w.Contracts[c].Hash, true)
 	}
+	// the majority account of an Inner Ring that consists of the auditor key alone (used by the rows
+	// measured right after a re-designation)
+	am := MultiSigner(1, []*keys.PrivateKey{d.aud.Priv}, keys.PublicKeys{d.aud.Priv.PublicKey()})
+	d.audMulti = am.ScriptHash()
+	w.Signers[d.audMulti] = am
 	w.Freeze()
 	// object meta information signed by the roster member
 	m := stackitem.NewMapWithValue([]stackitem.MapElement{
@@ -225,6 +232,8 @@ func (d *AuthGrid) resolve(w *World, sym string) []util.Uint160 {
 		return []util.Uint160{d.v.Hash}
 	case "M0":
 		return []util.Uint160{w.Members[0].Hash}
+	case "AUDM":
+		return []util.Uint160{d.audMulti}
 	}
 	hpanic("C03: unknown witness symbol %s", sym)
 	return nil
@@ -276,7 +285,7 @@ func (d *AuthGrid) Eval(x *Exec, root *Node, gc GridCase) GridResult {
 	where := map[string]any{"n": d.N, "contract": r.Contract, "method": r.Method, "signers": c.Signer}
 	var vs []*Violation
 	var adv uint32
-	if r.Kind == "redesignate" {
+	if strings.HasPrefix(r.Kind, "redesignate") {
 		rm := w.E.NativeHash(w.T, nativenames.Designation)
 		po, pn := x.Do(root, Call{Script: Script(rm, "designateAsRole", int64(16), []any{d.aud.Pub()}), Signers: []util.Uint160{w.Comm}, Label: "re-designate the Inner Ring"})
 		if !po.Halt {
@@ -289,7 +298,8 @@ func (d *AuthGrid) Eval(x *Exec, root *Node, gc GridCase) GridResult {
 	diff := DiffDumps(w.FullDump(root.L), w.FullDump(after.L))
 	inert := len(diff) == 0 && len(o.Notifs) == 0
 	out := "refused"
-	switch r.Kind {
+	kind := strings.TrimPrefix(strings.TrimPrefix(r.Kind, "redesignate"), "-")
+	switch kind {
 	case "safe":
 		if !inert {
 			vs = append(vs, Viol("safe-method-mutates", fmt.Sprintf("%s.%s is declared safe but changed state or notified with all witnesses present: %v %v", r.Contract, r.Method, diff, o.Notifs), where))
@@ -461,6 +471,8 @@ func authTable() []authRow {
 		// ---- processing / proxy / reputation ----
 		{"processing", "update", self("processing"), cm, "update"}, // majority of the designated NeoFSAlphabet keys (= the committee here)
 		{"processing", "onNEP17Payment", func(d *AuthGrid, w *World) []any { return []any{d.u.Hash, int64(1), nil} }, nil, ""},
+		{"processing", "update", self("processing"), k("AUDM"), "redesignate-update"}, // the block right after the NeoFSAlphabet role changed hands
+		{"neofs", "update", self("neofs"), k("AUDM"), "redesignate-update"},
 		{"processing", "verify", none, al, "verify"},
 		{"proxy", "update", self("proxy"), cm, "update"},
 		{"proxy", "onNEP17Payment", func(d *AuthGrid, w *World) []any { return []any{d.u.Hash, int64(1), nil} }, nil, ""},
